@@ -171,10 +171,16 @@ theorem C13_sound (ids : List Nat) (buf : Bytes) : ∀ p ∈ (scan ids buf).1, W
 theorem C13_residual_suffix (ids : List Nat) (buf : Bytes) : (scan ids buf).2 <:+ buf :=
   scan_suffix ids buf
 
-/-- the residual is always "not yet decidable": short, or an incomplete packet with a registered ID -/
-theorem C13_residual_incomplete (ids : List Nat) (buf : Bytes) :
-    (scan ids (scan ids buf).2).1 = [] := by
-  rw [scan_idem]
+/-- **the residual is always "not yet decidable"**: for every input, what the scan leaves in the
+    deque is `Incomplete` — at most six octets of anything, or the beginning of a packet with a
+    registered ID that is shorter than its header announces. (Never a complete registered packet,
+    never more than six octets that do not start with a registered ID.) -/
+theorem C13_residual_incomplete (ids : List Nat) (buf : Bytes) : Incomplete ids (scan ids buf).2 := by
+  fun_induction scan ids buf with
+  | case1 rest h6 => exact Or.inl (by simpa [headerLen] using h6)
+  | case2 rest h6 hpid hinc => exact Or.inr ⟨hpid, by omega⟩
+  | case3 rest h6 hpid hinc r ih => exact ih
+  | case4 rest h6 hpid ih => exact ih
 
 /-! ## The stream theorem -/
 
@@ -183,6 +189,13 @@ theorem C13_incomplete (ids : List Nat) (t : Bytes) (h : Incomplete ids t) : sca
   rcases h with h | ⟨hp, hl⟩
   · exact scan_short ids t h
   · exact scan_incomplete ids t hp hl
+
+/-- corollary (the former statement of `C13_residual_incomplete`): scanning the residual again
+    returns no packet and keeps it whole -/
+theorem C13_residual_quiet (ids : List Nat) (buf : Bytes) :
+    (scan ids (scan ids buf).2).1 = [] ∧ scan ids (scan ids buf).2 = ([], (scan ids buf).2) := by
+  have h := C13_incomplete ids _ (C13_residual_incomplete ids buf)
+  exact ⟨by rw [h], h⟩
 
 /-- a strict prefix of a well-formed packet is an incomplete tail -/
 theorem C13_prefix_incomplete (ids : List Nat) (t c : Bytes) (hc : c ≠ []) (hp : WFPacket ids (t ++ c)) :
